@@ -192,8 +192,14 @@ class StrSpec(Spec):
     def gen_values(self, rng, n):
         out = ['', '"', '\\', '\\\\', '\\"', '"\\', 'a\\', '\\n', '\\\n', '\n', '\r\n', 'a"b', '\\\\"', '\\\\\\"', '\x0c', '\x85',
                ' ', ASTRAL, 'é\\é', '\\t\\r\\f\\b', 'n', 't', '\x08', '\\x', '\\\\n']
+        # long texts: many escapes, many lines (nothing in the codec may depend on how many there are)
+        out += ['"' * 17, '\\' * 20, '"\\' * 12, '{"a": "b", "c": "d", "e": "f", "g": ["h", "i"], "j": "k\\n"}', 'x\n' * 40,
+                'line\r\n' * 20 + '"', 'é' * 300 + '"' * 33 + '\\' * 33]
         while len(out) < n:
             k = rng.randrange(6)
+            if rng.random() < 0.03:
+                out.append(rstr(rng, ['"', '\\', 'a', '\n'], 17, 80))
+                continue
             if k == 0:
                 out.append(rstr(rng, ['"', '\\'], 0, 7))
             elif k == 1:
